@@ -6,7 +6,7 @@ open Op2 Op2.Bmp
 
 namespace BmpD
 
-def showB (b : Bytes) : String := if b.length ≤ 4096 then hexOfBytes b else s!"#{b.length}:{fnv1a b}"
+def showB (b : Bytes) : String := if b.length ≤ 65536 then hexOfBytes b else s!"#{b.length}:{fnv1a b}"
 
 def dump (f : Bmp) : String :=
   let b := f.bh; let h := f.ih
